@@ -34,6 +34,14 @@ func verifC10Files() [][]byte {
 	files = append(files, []byte("GGUF\x03\x00\x00\x00\x00\x00\x00\x00\x00\x00\x00\x00\x00\x00\x00\x00\x00\x00\x00\x00"))
 	files = append(files, []byte("not a model file at all, just text that is long enough to sniff"))
 	files = append(files, []byte("GGUF"))
+	// well-formed files with unusual (but decodable) tensor kinds and general.file_type values: the decoder
+	// accepts them, so create/show must answer normally and keep serving
+	for _, k := range []uint32{1, 30, 31, 34, 39, 40, 99, 1 << 31, 1<<32 - 1} {
+		var vb bytes.Buffer
+		ggml.WriteGGUF(verifMemWS{&vb}, ggml.KV{"general.architecture": "llama", "general.file_type": k, "llama.block_count": uint32(1), "tokenizer.ggml.tokens": []string{"a"}},
+			[]ggml.Tensor{{Name: "blk.0.attn_q.weight", Kind: k, Shape: []uint64{2, 2}, WriterTo: bytes.NewReader(make([]byte, ggml.Tensor{Kind: k, Shape: []uint64{2, 2}}.Size()))}})
+		files = append(files, vb.Bytes())
+	}
 	// seeded mutants of a small valid file (field overwrites with boundary values, truncations)
 	var base bytes.Buffer
 	wf := verifMemWS{&base}
@@ -132,7 +140,7 @@ func TestVerifC10APIChild(t *testing.T) {
 		mp := filepath.Join(models, "manifests", "registry.ollama.ai", "library", "m")
 		os.MkdirAll(mp, 0o755)
 		os.WriteFile(filepath.Join(mp, "latest"), []byte(man), 0o644)
-		st, body := post("/api/show", map[string]any{"model": "m"})
+		st, body := post("/api/show", map[string]any{"model": "m", "verbose": true})
 		fmt.Printf("VERIF show=%d error=%v\n", st, strings.Contains(body, "error"))
 	}
 	// liveness probe
@@ -180,7 +188,7 @@ func TestVerifC10API(t *testing.T) {
 	for _, r := range results {
 		caseLine := fmt.Sprintf("api-%s %d %s", r.mode, r.idx, zzverif.Hex(files[r.idx]))
 		out.Count("api_cases")
-		ok := strings.HasSuffix(r.res, " alive") && !strings.Contains(r.res, "=-1") && !strings.HasPrefix(r.res, "no-error")
+		ok := strings.HasSuffix(r.res, " alive") && !strings.Contains(r.res, "=-1") && !strings.HasPrefix(r.res, "no-error") && !strings.HasPrefix(r.res, "panic-recovered")
 		// success for a malformed file means: an HTTP answer (2xx for the control file, an error
 		// status/body otherwise) and the server still answers afterwards
 		if !ok {
@@ -228,6 +236,9 @@ func verifC10RunChild(idx int, mode string) string {
 	case alive == "alive" && status != "" && undecodable && strings.Contains(status, "error=false"):
 		// the file does not decode, yet the request reported success
 		res = "no-error " + status + " alive"
+	case alive == "alive" && status != "" && strings.Contains(status, "=5") && strings.Contains(status, "error=false"):
+		// a 5xx answer without an error object: the handler panicked and gin's recovery answered
+		res = "panic-recovered " + status + " alive"
 	case alive == "alive" && status != "":
 		res = status + " alive"
 	case strings.Contains(text, "panic:") || strings.Contains(text, "fatal error"):
